@@ -240,6 +240,13 @@ func runC14(t *testing.T, c c14Cfg) {
 	cw.expect("parent-update-spec(matching)", []string{ka}, touch(pinfo, sc.ns(), sim.Name(cw.pa)))
 	cw.expect("parent-update-spec(non-matching)", none, touch(pinfo, sc.ns(), "pn-"+uid))
 	cw.expect("parent-update-spec(non-matching,finalizer="+fmt.Sprint(len(wantF) > 0)+")", wantF, touch(pinfo, sc.ns(), "pf-"+uid))
+	// a parent that does not match but carries the controller's finalizer is queued whether or not
+	// a finalize hook is configured (without one, the sync is what removes the leftover); these
+	// events are only delivered, never processed, so the finalizer stays for all three
+	plKey := objKeyOf(sc.ns(), "pl-"+uid)
+	cw.expect("parent-add(non-matching,carries finalizer)", []string{plKey}, func() { s.MustCreate(pgvr, mkParent("pl-"+uid, false, "f-"+uid, true)) })
+	cw.expect("parent-update-spec(non-matching,carries finalizer)", []string{plKey}, touch(pinfo, sc.ns(), "pl-"+uid))
+	cw.expect("parent-delete(non-matching,carries finalizer)", []string{plKey}, func() { s.ExtDelete(pgvr, sc.ns(), "pl-"+uid, "") })
 	statusOnly := func() {
 		p := s.Peek(pgvr, sc.ns(), sim.Name(cw.pa))
 		st, _ := p["status"].(map[string]interface{})
@@ -363,7 +370,8 @@ func runC14(t *testing.T, c c14Cfg) {
 	})
 	cw.expect("related-delete(selected)", []string{ka}, func() { s.ExtDelete(sim.SecretInfo.GVR(), relNS, "s1-"+uid, "") })
 	// the Zone is selected by name by every managed parent
-	allManaged := append([]string{ka, kb, objKeyOf(sc.ns(), "pc-"+uid), objKeyOf(sc.ns(), "px-"+uid)}, wantF...)
+	// (pl is pending deletion, held by the finalizer it still carries: it is still a parent to wake)
+	allManaged := append([]string{ka, kb, objKeyOf(sc.ns(), "pc-"+uid), objKeyOf(sc.ns(), "px-"+uid), plKey}, wantF...)
 	if !c.Cluster {
 		allManaged = none // cluster-scoped objects are never related to a namespaced parent
 	}
